@@ -107,7 +107,7 @@ CLAIMS = {
 }
 NA = {}
 E15_PROPS = {"C07","C08","C09","C10","C11","C12","C13","C14","C15","C16","C19","C20"}
-E15_TEXT = " Also decided for the whole module as necessary conditions of this property: no comparison has the same expression on both sides; no loop that collects results from every element breaks on a per-element miss; sibling collections of one owner are indexed by the loop's own index; variables classifying the current loop element are assigned in the same iteration before they are read; the feature walkers of Any expressions give each child of a syntax node kind the same constraint (reviewed divergences excepted); no query writes memory that existed before it (ownership engine: append-alias and escaping-write rules); no copy() into a zero-length destination; no string test normalises the case of one side only; self-recursive calls pass their own parameters in their own positions; no field of a struct value is updated after the value was copied out unless it is copied out again compatibly (lost updates)."
+E15_TEXT = " Also decided for the whole module as necessary conditions of this property: no comparison has the same expression on both sides; no loop that collects results from every element breaks on a per-element miss; sibling collections of one owner are indexed by the loop's own index; variables classifying the current loop element are assigned in the same iteration before they are read; the feature walkers of Any expressions give each child of a syntax node kind the same constraint (reviewed divergences excepted); no query writes memory that existed before it (ownership engine: append-alias and escaping-write rules); no copy() into a zero-length destination; no string test normalises the case of one side only; self-recursive calls pass their own parameters in their own positions; no field of a struct value is updated after the value was copied out unless it is copied out again compatibly (lost updates); no dead store to a local; an inner search flag starts false for every element of the enclosing loop; a context enriched for one body is not passed to the descent into nested bodies."
 ALL = ["C%02d" % i for i in range(1, 21)]
 def main():
     checks = []
